@@ -1170,6 +1170,12 @@ STRINGS_EXPLICIT = POSITION_EXPLICIT + [
     PRELUDE + 'class A { [EmbeddedInstance(5)] string e; };',
     PRELUDE + 'class A { [Key] string k; [EmbeddedObject] string e; };\n'
     'instance of A { k = "a"; e = 1.5; };',
+    # namespace pragma to a fresh namespace, then a class with a dependency
+    # (found by a seeding agent; KeyError in p_mp_createClass before the fix)
+    '#pragma namespace("other")\n' + PRELUDE +
+    '[Association] class A { [Key] Missing REF r; };\n',
+    '#pragma namespace("other2")\n' + PRELUDE +
+    'class B : MissingSuper { string s; };\n',
 ]
 
 _MUTATED = mutated_strategy()
